@@ -129,3 +129,23 @@ CHECKS["C04"] = {
                   "earlier one is equal; None <-> Some(0) leaves all equal; re-verification under a changed context is rejected.",
     "level_note": "Held on the executed calls. Trusted: the probe (a verbatim copy of merlin 3.0.0 whose STROBE operations are untouched).",
 }
+
+CHECKS["C05"] = {
+    "title": "Statement binding: any single alteration of an accepted triple is rejected",
+    "level": "exploration",
+    "technique": "runtime monitoring: systematic single-component mutation of accepted triples (every proof element and statement field), verdict oracle under catch_unwind, residual observed over the free-module group; also inside batches",
+    "design_ref": "DESIGN.md section 4 C05",
+    "legs": [{"name": "fm", "shards": 16}, {"name": "ris", "shards": 16}],
+    "rule": "one case = (accepted triple, alteration of exactly one component, verifier role); alterations enumerate every scalar and point position of the proof "
+            "(+1, negated, zero, random; random point, identity, undecodable, another proof's element, sibling element, swaps), round count +-1, degree byte, each commitment, "
+            "commitment order, each promise, bit length, H, each G_k, G order, transcript label and messages; roles = public verifier and seed owner in both verifying modes; "
+            "non-trivial = the base triple was accepted first; distinct = distinct (group, instance, alteration, role); no-op alterations (None <-> Some(0)) are asserted to stay accepted",
+    "require": {"quick": {"accepted_triples": 150, "alterations_checked": 20000, "alterations_inside_batches": 4000, "noop_alterations_still_accepted": 300},
+                "thorough": {"accepted_triples": 2000, "alterations_checked": 600000, "alterations_inside_batches": 40000, "noop_alterations_still_accepted": 5000}},
+    "assumptions": COMMON_ASSUMPTIONS + ["replacement values are sampled (4 kinds per scalar, 5 per point), not all values of the type",
+                                         "for bits*aggregation = 1 proof-side alterations cannot be built through the codec and are skipped"],
+    "level_text": "For accepted triples over the lattice, alters every single component position in turn and runs the real decoder and verifier (as public "
+                  "verifier and as seed owner, alone and as a member of a mixed batch): outcome must be an error, never Ok and never a panic; the None/Some(0) "
+                  "promise equivalence must stay accepted. Over the free-module group the residual is recorded to show that rejections of well-shaped inputs come from the final identity.",
+    "level_note": "Held on the executed alterations. Trusted: harness mutation generator.",
+}
